@@ -5,11 +5,27 @@ expressions with observable side effects ($x = .., rec(..)) under !!, !, ?:, &&,
 Invariants FalsyExactly and OnlySelectedBranch are checked on the specification; every case is replayed."""
 from checks.evalcheck import run_family
 
+import json
+
+def corrupt_nodes(lines):
+    # claim that a conditional evaluated its other branch
+    for i, l in enumerate(lines):
+        e = json.loads(l)
+        if e.get("kind") == "Cond" and len(e["kids"]) == 2 and e["kids"][1][0] in (2, 3):
+            e["kids"][1][0] = 5 - e["kids"][1][0]
+            return i, json.dumps(e)
+    raise RuntimeError("no conditional node")
+
 def run(ctx):
     run_family(ctx, "c06", 12000)
     # random deeper programs over every operator, builtin and value kind, recorded from the real evaluator and validated by Trace_Expr
     tr = ctx.record("prog-random", "expr", ["-mode", "prog", "-n", 40000 if ctx.thorough else 3000, "-seed", ctx.seed * 100 + 6])
     ctx.validate("prog-random-validate", "trace/Trace_Expr.tla", "trace/Trace_Expr.cfg", tr, "expr", shards=14 if ctx.thorough else 2)
+    # per-node trace validation: every evaluated node of random programs judged locally (evaluation order, selected branch only,
+    # operator cells, member access, calls) given its children's observed results
+    nd = ctx.record("nodes-random", "nodes", ["-n", 6000 if ctx.thorough else 600, "-seed", ctx.seed * 100 + 56])
+    ctx.validate("nodes-random-validate", "trace/Trace_Nodes.tla", "trace/Trace_Nodes.cfg", nd, "nodes", shards=1)
+    ctx.selftest_binding("nodes-random", "trace/Trace_Nodes.tla", "trace/Trace_Nodes.cfg", nd, "nodes", corrupt_nodes)
     return ctx.finish(
         rule="every (condition expression, branch expressions, operator) combination of the family, evaluated by the real "
              "evaluator with recording host functions; compared: value (exact decimal / bytes / kind), error, the data map "
